@@ -36,11 +36,11 @@ RULE = (
     "override(slide,ph,x,y,cx,cy), text, slidename. A case is non-trivial when at least one of its "
     "add ops used a layout that has a latent (dt/ftr/sldNum) placeholder, a duplicate placeholder "
     "type, or a placeholder without its own complete a:xfrm; distinct = distinct hash of "
-    "(deck spec, executed ops).")
+    "(deck spec, op list). 5 fixed directed cases run first in every tier.")
 ASSUMPTIONS = [
-    "only placeholders that are direct children of p:spTree count (python-pptx and PowerPoint do "
-    "not instantiate placeholders nested in groups); layouts with nested p:ph are measured "
-    "(class lay:nested-ph) and excluded from the count clause",
+    "only placeholders that are direct children of p:spTree are considered; layouts with a p:ph "
+    "nested in a group (none in the corpus, none generated) are counted (class lay:nested-ph) and "
+    "excluded from the mirror clause",
     "p:ph attribute values are compared as effective values (absent == schema default: type=obj, "
     "orient=horz, sz=full, idx=0)",
     "when a layout uses one idx for several placeholders (ill-formed; the slide->layout link is "
@@ -100,17 +100,21 @@ def _ph_shapes(shapes):
 
 def _mirror_compare(prefix, expected, got, dropped_types):
     """expected / got: lists of M.Ph. Raises Violation naming the first difference."""
+    ek, gk = [p.key() for p in expected], [p.key() for p in got]
+    if ek == gk:
+        return
     et, gt = [p.type for p in expected], [p.type for p in got]
+    extra = [t for t in gt if t in dropped_types]
+    if extra:
+        raise Violation("%s:latent-cloned=%s" % (prefix, extra[0]),
+                        "expected types %r, new part has %r" % (et, gt))
+    if len(ek) != len(gk):
+        raise Violation("%s:count" % prefix, "expected %d placeholders %r, got %d %r"
+                        % (len(et), et, len(gt), gt))
+    if sorted(ek) == sorted(gk):
+        raise Violation("%s:order" % prefix, "expected (type, idx, orient, sz) in order %r, got %r"
+                        % (ek, gk))
     if et != gt:
-        extra = [t for t in gt if t in dropped_types]
-        if extra:
-            raise Violation("%s:latent-cloned=%s" % (prefix, extra[0]),
-                            "expected types %r, new part has %r" % (et, gt))
-        if sorted(et) == sorted(gt):
-            raise Violation("%s:order" % prefix, "expected types in order %r, got %r" % (et, gt))
-        if len(et) != len(gt):
-            raise Violation("%s:count" % prefix, "expected %d placeholders %r, got %d %r"
-                            % (len(et), et, len(gt), gt))
         raise Violation("%s:type" % prefix, "expected types %r, got %r" % (et, gt))
     for i, (e, g) in enumerate(zip(expected, got)):
         for attr in ("idx", "orient", "sz"):
@@ -118,8 +122,7 @@ def _mirror_compare(prefix, expected, got, dropped_types):
                 raise Violation("%s:%s" % (prefix, attr),
                                 "placeholder #%d type=%s: source has %s=%r, clone has %r (source ph %r)"
                                 % (i, e.type, attr, getattr(e, attr), getattr(g, attr), e.raw))
-    if [p.idx for p in expected] != [p.idx for p in got]:
-        raise Violation("%s:order" % prefix, "idx order differs")
+    raise HarnessError("unreachable: keys differ but no attribute does")
 
 
 class _Stats(object):
@@ -137,7 +140,6 @@ class Run(object):
         self.stats = stats
         self.model = []          # one dict per slide added in this run
         self.n0 = len(prs.slides)
-        self.executed = []
 
     # -- access ------------------------------------------------------------
     def layouts(self):
@@ -224,7 +226,6 @@ class Run(object):
         n = len(before)
         with sut("C13:add_slide"):
             slide = slides_coll.add_slide(layout)
-        self.executed.append(["add", i])
 
         # ---- order ----
         with sut("C13:slides-access"):
@@ -363,7 +364,6 @@ class Run(object):
                 sh.add_connector(MSO_CONNECTOR.STRAIGHT, Emu(1), Emu(2), Emu(30), Emu(40))
             else:
                 sh.add_group_shape()
-        self.executed.append(["shape", pos, kind])
         m = self.model_of(pos)
         if m:
             self.verify_model_slide(slide, m, "after-shape")
@@ -390,7 +390,6 @@ class Run(object):
         name = "%s %d" % (base, max(ids + [1]) + delta)
         with sut("C13:edit:rename"):
             target.name = name
-        self.executed.append(["rename", pos, shi % len(shapes), phi, delta])
         m = self.model_of(pos)
         if m:
             self.verify_model_slide(slide, m, "after-rename")
@@ -421,7 +420,6 @@ class Run(object):
         before = [(p.id, p.name) + p.key() for p in M.placeholders(broot)]
         with sut("C13:clone_placeholder"):
             slide.shapes.clone_placeholder(api_l[k])
-        self.executed.append(["clone_into", pos, k])
         after_phs = M.placeholders(M.parse(slide.part.blob))
         rest = list(before)
         new = []
@@ -476,7 +474,6 @@ class Run(object):
             s.left, s.top, s.width, s.height = Emu(x), Emu(y), Emu(cx), Emu(cy)
         ph["acc"] = {(x, y, cx, cy)}
         ph["path"] = "overridden"
-        self.executed.append(["override", k, j, x, y, cx, cy])
         self.verify_model_slide(slide, m, "after-override")
 
     def op_text(self, si, phi, text):
@@ -497,7 +494,6 @@ class Run(object):
             return
         with sut("C13:edit:text"):
             s.text_frame.text = text
-        self.executed.append(["text", k, phi % len(m["phs"]), text])
         self.verify_model_slide(slide, m, "after-text")
 
     def op_slidename(self, si, text):
@@ -506,7 +502,6 @@ class Run(object):
             return
         with sut("C13:edit:slidename"):
             slide.name = text
-        self.executed.append(["slidename", pos, text])
         m = self.model_of(pos)
         if m:
             self.verify_model_slide(slide, m, "after-slidename")
@@ -520,7 +515,6 @@ class Run(object):
         had_master = any(r.reltype == RT_NOTES_MASTER for r in prs.part.rels.values())
         with sut("C13:notes_slide"):
             ns = slide.notes_slide
-        self.executed.append(["notes", pos])
         if had:
             self.stats.classes.append("notes:existing")
             return
@@ -586,7 +580,6 @@ class Run(object):
         with sut("C13:save"):
             self.prs.save(buf)
         data = buf.getvalue()
-        self.executed.append(["reopen"])
         # independent reading of the saved package
         pkg = opcmodel.Pkg.read(data)
         doc = [r for r in pkg.rels("/") if r.type == M.RT_OFFICE_DOC]
@@ -848,7 +841,7 @@ def jobs(tier):
     js += [{"kind": "corpus-enum", "shard": i} for i in range(N_ENUM)]
     js += [{"kind": "corpus-hyp", "shard": i, "n": 400 if th else 25, "max_ops": 20 if th else 8}
            for i in range(N_CHYP)]
-    js += [{"kind": "gen", "shard": i, "n": 3000 if th else 200, "max_ops": 14 if th else 8}
+    js += [{"kind": "gen", "shard": i, "n": 3000 if th else 300, "max_ops": 14 if th else 8}
            for i in range(N_GEN)]
     return js
 
